@@ -466,7 +466,7 @@ def _interleave(self, specs, sched):
                 res[i] = Crash("%s: %s" % (type(e).__name__, e))
         # the plain (uninterrupted) answer of every page-link query at every moment of its execution: what "qualified"
         # means for the sandwich clause of the property (side channel, not part of the reply)
-        moments = dict((k, []) for k, sp in enumerate(specs) if sp[0] in (3, 4))
+        moments = dict((k, []) for k, sp in enumerate(specs) if sp[0] in (2, 3, 4))
 
         def snapshot():
             for k in moments:
@@ -474,6 +474,15 @@ def _interleave(self, specs, sched):
                     continue
                 sp = specs[k]
                 TIS.should_yield = orig
+                if sp[0] == 2:
+                    TIS.should_yield = orig
+                    try:
+                        moments[k].append(set(p["lru"] for p in t.get_webentity_pages(sp[1], list(sp[2]))))
+                    except Exception:
+                        moments[k].append(None)
+                    finally:
+                        TIS.should_yield = always
+                    continue
                 if sp[0] == 3:
                     TIS.should_yield = orig
                     try:
